@@ -75,12 +75,12 @@ PROPS = {
         trusted_base=["the wall clock read by DoRetentionBasedDeletion cannot be injected: the harness plans an instant a few ms ahead, shifts the generated times by (real horizon − model horizon) and verifies with two probe segments (newest event = H and H+1 ms) that the pass read exactly that instant, repeating the case otherwise",
                       "crash points inside DeleteSegmentData: inside the blob phase by a panic from the blob hook of the real function; between later phases by calling its exported callees in the order that the call-order fact DeleteSegmentData.order ties to the source",
                       "the blob store is a map behind hooks.GlobalHooks (GetAllFilesInDirectoryHook / DeleteBlobExtrasHook)"],
-        decided_by_proof="time-based victim selection (deleted iff of the pass's org and newest event <= now - retention, for every meta set; uint64 wrap branch characterised: deletes everything), survivors untouched in all five stores at every cut point, interrupted-after-any-prefix + repeated = uninterrupted (segmeta.json last; counterexample for segmeta.json first), nothing of a victim left in blob/files/memory/segmeta.json, volume pass: never marks as much as the excess, oldest-first only under the two guards (counterexample theorems for the switch-break and the uint32 sort key), empty-PQ meta cleanliness only under a guard (counterexample theorem)",
+        decided_by_proof="time-based victim selection (deleted iff of the pass's org and newest event <= now - retention, for every meta set; uint64 wrap branch characterised: deletes everything), survivors untouched in all five stores at every cut point, interrupted-after-any-prefix + repeated = uninterrupted (segmeta.json last; counterexample for segmeta.json first), nothing of a victim left in blob/files/memory/segmeta.json, volume pass (after the two repairs in /repo): oldest-first at full strength for every input (marked = a prefix of the age-sorted candidates, nothing strictly older than a deleted segment stays; only hypothesis: LatestEpochSec is a uint32), never marks as much as the excess; the pre-repair pass is kept as volPassOld with its two counterexample theorems; empty-PQ meta cleanliness only under a guard (counterexample theorem, known finding)",
         partial="metrics-segment deletion protocol (DeleteMetricsSegmentData: in-memory first, early return when the key is not in memory) and DeleteEmptyIndices: correspondence/E2E only; inode-based pass: modelled (inodeLoop) but not tied (depends on statfs) and not proved; sort.Slice instability for > 12 tied entries and map-ordered ties between metrics segments: excluded by the generator; searchability after the pass: E2E on a handful of real segments only; process restart between interrupt and repeat (in-memory metadata rebuilt from segmeta.json): not modelled",
         assumptions=["segment keys are distinct (they are Go map keys)", "one retention pass at a time"],
     ),
     "C15": dict(
-        suites=[("bulk", 4000, 60000)],
+        suites=[("bulk", 4000, 60000), ("bulk_e2e", 120, 3000)],
         facts={"const.MAX_RECORD_SIZE": "63000"},
         decided_by_proof="the HandleBulkBody loop: one item per action in order, item status local to its action, stored = created, errors flag = some item failed, for every body",
         partial="JSON classification of lines (jsonparser), store-level failures after acknowledgement, searchability after flush, HTTP layer, Splunk/Loki entry points: correspondence/E2E only",
